@@ -10,12 +10,19 @@ RULE = ("edit histories (same operation alphabet as C06, 1..8 operations, raw ob
         "auto_commit on, or off with explicit commits and search probes in between. After every step on a committed state the full "
         "dump (texts, line numbers, parents, stored child lists) is compared with a from-scratch CiscoConfParse of the same texts "
         "and options; a double commit is appended to every history. non-trivial = at least one successful mutation; distinct by request.")
-LEVEL_TEXT = ("Theorems (Lean 4, every history): every state reached with auto-commit on, or by an explicit commit, holds the tree of a "
-              "from-scratch parse of its current texts with line numbers 0..n-1 (bootstrap is idempotent on its own output, also with "
-              "ignore_blank_lines), commit is idempotent, and with auto-commit off every search probe refuses between a list insert / "
-              "family append and the next commit, and answers again after it. Tied to the code by differential runs of histories.")
+LEVEL_TEXT = ("Theorems (Lean 4, Ccp.Props.C07, every config, option set and history): bootstrap is idempotent on its own output (also with "
+              "ignore_blank_lines: the re-bootstrapping loop ends in a fixed point of the blank-line filter; it only ever drops blank lines), "
+              "hence parse = one bootstrap; commit of any state yields tree = parse(texts), texts = tree.texts, flags cleared; commit is "
+              "idempotent; invariant 'no uncommitted change => tree = parse(cfg, texts)' holds initially and is preserved by every operation, "
+              "so it holds in every state reached by any history, in particular after every single operation with auto_commit on (never dirty, "
+              "never stale) and directly after an explicit commit; such trees satisfy C03's Forest. With auto_commit off a list insert or a "
+              "successful append_to_family makes the state stale, staleness survives every operation except commit, a search probe raises "
+              "NotImplementedError exactly when stale, and answers again after commit; nothing else makes a state stale. Line numbers are "
+              "positions and child lists are derived from the parent indices in the model's tree, so tree equality is equality of texts, line "
+              "numbers, parents and children. Tied to the code by differential runs of histories.")
 LEVEL_NOTE = ("Trusted: Lean kernel, standard axioms, harness. The integer checkpoint is abstracted to a boolean (assumes the sum of line "
-              "identifiers changes when a line is inserted; a 64-bit hash collision is not modelled).")
+              "identifiers changes when a line is inserted; a 64-bit hash collision is not modelled). All C07 theorems of DESIGN.md are proved "
+              "at full strength; nothing is partial.")
 ASSUMPTIONS = ["hash((linenum, text)) sums differ after an insertion (no 64-bit collision)", "object handles are used only on a committed state"]
 TRUSTED = ["regex oracle rows / substituted texts"]
 EXHAUSTIVE = {"quick": False, "thorough": False}
